@@ -90,3 +90,133 @@ repair_step1 = FunctionContract(
 )
 CONTRACTS = [repair_step1]
 LEMMAS = []
+
+
+# ------------------------------------------------------------------ repair_residue, step 2: re-adding one missing atom
+# (the body of the inner loop, for an arbitrary missing atom that has a placed neighbour; node keys are integers here)
+EdgeK = TTuple(TInt, TInt)
+AttrsI = TMap(TStr, Val)
+
+
+def setup_add(cx):
+    eng = cx.eng
+    from pyvc.values import COERCIONS
+    from pyvc.builtins import setitem, contains
+    ref_attrs = cx.val('REFATTR', TMap(RefIdx, Attrs))
+    cx.spec_env['REFATTR'] = ref_attrs
+    MOL = cx.heap('MOLATTR', cx.box('MOLATTR', TMap(TInt, AttrsI)))
+    FOUND = cx.heap('FOUNDATTR', cx.box('FOUNDATTR', TMap(TInt, AttrsI)))
+    EDGES = cx.heap('EDGES', cx.box('EDGES', TSet(EdgeK)))
+    nbrs = cx.uf('nbrs', [RefIdx], TSeq(RefIdx))            # reference[ref_idx]: the neighbours in the block
+    cx.uf('mpos', [RefIdx], TInt)
+    int2val = cx.uf('int2val', [TInt], Val)
+    str2val = cx.uf('str2val', [TStr], Val)
+    COERCIONS[('Int', 'Val')] = int2val
+    COERCIONS[('Str', 'Val')] = str2val
+    r_ = z3.Const('r', RefIdx.sort())
+    cx.assume(z3.ForAll([r_], TSeq(RefIdx).len(nbrs(r_)) >= 0))
+    match = cx.box('match', TMap(RefIdx, TInt))
+    missing = cx.box('missing', TSeq(RefIdx))
+
+    def nodeview(heap, immut=None):
+        nv = Obj('NodeView')
+        nv.attrs['__getitem__'] = Builtin(lambda e, k: getitem(e, heap if immut is None else immut, k), 'nodes[]')
+        return nv
+    reference = Obj('Block', nodes=nodeview(None, ref_attrs))
+    reference.attrs['__getitem__'] = Builtin(lambda e, r: SV(TSeq(RefIdx), nbrs(to_z3(r, RefIdx))), 'reference[]')
+
+    def add_node(heap):
+        def f(e, key, **kw):
+            if set(kw) != {'**'}:
+                raise EngineError('add_node with explicit keywords')
+            setitem(e, heap, key, kw['**'])
+        return f
+    found = Obj('Graph', nodes=nodeview(FOUND), add_node=Builtin(add_node(FOUND), 'found.add_node'))
+    molecule = Obj('Molecule', nodes=nodeview(MOL), add_node=Builtin(add_node(MOL), 'molecule.add_node'))
+    molecule.__dict__['iter'] = MOL
+    from pyvc.builtins import b_len
+    molecule.attrs['__len__'] = Builtin(lambda e: b_len(e, MOL), 'len(molecule)')
+
+    def has_edge(e, a, b):
+        ae, be = to_z3(a, TInt), to_z3(b, TInt)
+        return wrap(TBool, z3.Or(z3.Select(EDGES.e, EdgeK.mk(ae, be)), z3.Select(EDGES.e, EdgeK.mk(be, ae))))
+
+    def add_edge(e, a, b):
+        EDGES.e = z3.Store(EDGES.e, EdgeK.mk(to_z3(a, TInt), to_z3(b, TInt)), True)
+    molecule.attrs['has_edge'] = Builtin(has_edge, 'has_edge')
+    molecule.attrs['add_edge'] = Builtin(add_edge, 'add_edge')
+    ref_residue = Box(None, kind='dict')
+    ref_residue.cd = {'reference': reference, 'found': found, 'match': match, 'nnodes': cx.val('nnodes', Val),
+                      'resid': cx.val('resid', Val), 'resname': cx.val('resname', Val), 'chain': cx.val('chain', Val)}
+    log = Obj('LOGGER')
+    for n in ('debug', 'info', 'log', 'error'):
+        log.attrs[n] = Builtin(lambda e, *a, **k: None, n)
+    cx.spec_env['LOGGER'] = log
+    cx.spec_env['format_atom_string'] = Builtin(lambda e, n: 'atom', 'format_atom_string')
+    ref_idx = cx.val('ref_idx', RefIdx)
+    cx.spec_env['nb_w'] = cx.val('nb_w', TInt)
+    cx.spec_env['match0'] = SV(TMap(RefIdx, TInt), match.e)
+    cx.spec_env['missing0'] = SV(TSeq(RefIdx), missing.e)
+    return dict(molecule=molecule, ref_residue=ref_residue, reference=reference, found=found, match=match, missing=missing,
+                ref_idx=ref_idx, resid=ref_residue.cd['resid'], resname=ref_residue.cd['resname'], added=cx.val('added', TBool))
+
+
+SPEC_ADD = {
+    'new': "lambda: match[ref_idx]",
+    'has_e': "lambda E, a, b: (a, b) in E or (b, a) in E",
+    'nb': "lambda j: nbrs(ref_idx)[j]",
+    # what the new atom must carry: the block atom's attributes (except resid), its residue's identity, a fresh atom id
+    'expected': "lambda A, k: (A[k] == int2val(new() + 1) and k in A) if k == 'atomid' else "
+                "((A[k] == REFATTR[ref_idx][k] and k in A) if (k != 'resid' and k in REFATTR[ref_idx]) else "
+                "((A[k] == resid and k in A) if k == 'resid' else ((A[k] == resname and k in A) if k == 'resname' else "
+                "((A[k] == ref_residue['chain'] and k in A) if k == 'chain' else not (k in A)))))",
+}
+add_missing_atom = FunctionContract(
+    F, 'repair_residue', 'C04', short='repair_residue[re-add one atom]', setup=setup_add, spec_defs=SPEC_ADD,
+    spec_env=dict(RefIdx=RefIdx, Val=Val, EdgeK=EdgeK),
+    region=dict(within=["while missing and added:", "for ref_idx in missing:"], start="added = True"),
+    locals=dict(node=AttrsI),
+    requires=[
+        # the atom is missing (listed once), has no partner yet, and at least one of its block neighbours is placed
+        "0 <= mpos(ref_idx) and mpos(ref_idx) < len(missing) and missing[mpos(ref_idx)] == ref_idx",
+        "forall(lambda q: implies(0 <= q and q < len(missing), mpos(missing[q]) == q and not (missing[q] in match)))",
+        "not (ref_idx in match) and ref_idx in REFATTR and 'element' in REFATTR[ref_idx]",
+        "0 <= nb_w and nb_w < len(nbrs(ref_idx)) and nb(nb_w) in match",
+        "forall(lambda j: implies(0 <= j and j < len(nbrs(ref_idx)), nb(j) != ref_idx))",
+        # placed atoms are atoms of the molecule, bonds join atoms of the molecule, the molecule is not empty
+        "forall(lambda r: implies(r in match, match[r] in MOLATTR), RefIdx)",
+        "forall(lambda a, b: implies((a, b) in EDGES, a in MOLATTR and b in MOLATTR))",
+        "len(MOLATTR) > 0",
+    ],
+    ensures=[
+        # the atom is placed under a key that no atom of the molecule has (above all of them), in the molecule and in `found`
+        "ref_idx in match and not (new() in old(MOLATTR)) and forall(lambda k: implies(k in old(MOLATTR), k < new()))",
+        "new() in MOLATTR and new() in FOUNDATTR",
+        "forall(lambda k: expected(MOLATTR[new()], k) and expected(FOUNDATTR[new()], k), TStr)",
+        # it is bonded to every block neighbour that is placed - and to nothing else; no other bond changes
+        "forall(lambda j: implies(0 <= j and j < len(nbrs(ref_idx)) and nb(j) in match0, has_e(EDGES, match0[nb(j)], new())))",
+        "forall(lambda a, b: implies((a, b) in EDGES and not ((a, b) in old(EDGES)), b == new() and "
+        "   exists(lambda j: 0 <= j and j < len(nbrs(ref_idx)) and nb(j) in match0 and match0[nb(j)] == a)))",
+        "forall(lambda a, b: implies((a, b) in old(EDGES), (a, b) in EDGES))",
+        # book-keeping: exactly this atom leaves `missing` and enters `match`; all other atoms keep their attributes
+        "len(missing) == len(missing0) - 1 and forall(lambda q: implies(0 <= q and q < len(missing), "
+        "   missing[q] == (missing0[q] if q < mpos(ref_idx) else missing0[q + 1])))",
+        "forall(lambda r: implies(r != ref_idx, (r in match) == (r in match0) and implies(r in match, match[r] == match0[r])), RefIdx)",
+        "forall(lambda n: implies(n != new(), (n in MOLATTR) == (n in old(MOLATTR)) and implies(n in MOLATTR, MOLATTR[n] == old(MOLATTR)[n])))",
+        "added",
+    ],
+    modifies=['MOLATTR', 'FOUNDATTR', 'EDGES', 'match', 'missing'],
+    loops={
+        'L1': LoopSpec(inv=[], modifies=[]),       # for key, val in ref_residue.items(): concrete keys, unrolled by the engine
+        'L2': LoopSpec(
+            inv=["forall(lambda j: implies(0 <= j and j < _i and nb(j) in match0, has_e(EDGES, match0[nb(j)], res_idx)))",
+                 "forall(lambda a, b: implies((a, b) in EDGES and not ((a, b) in old(EDGES)), b == res_idx and "
+                 "   exists(lambda j: 0 <= j and j < _i and nb(j) in match0 and match0[nb(j)] == a)))",
+                 "forall(lambda a, b: implies((a, b) in old(EDGES), (a, b) in EDGES))",
+                 "neighbours >= 0 and implies(exists(lambda j: 0 <= j and j < _i and nb(j) in match0), neighbours > 0)"],
+            modifies=['EDGES']),
+    },
+    canary=[("res_idx = max(molecule) + 1", "res_idx = len(molecule)"), ("node['atomid'] = res_idx + 1", "node['atomid'] = res_idx"),
+            ("molecule.add_edge(neighbour_res_idx, res_idx)", "molecule.add_edge(neighbour_res_idx, neighbour_res_idx)")],
+)
+CONTRACTS.append(add_missing_atom)
